@@ -79,6 +79,7 @@ def reuse(s, i):
 
 
 def run(s):
+    K.hostile_callers(s)
     K.suite_workload(s)
     K.fixtures_workload(s)
     K.collision_cases(s)
